@@ -106,7 +106,9 @@ MANIFEST = dict(
          "hypothesis about lists - dict root and list root (n0list) with KeysOkV, ContOkV only: exactly tailOfL sub (descV name root), "
          "the DFS reference that fans out over a list called name in element order (lists of lists recursively, keys "
          ".../name[i]/sub, .../name[i][j]/sub), unbounded in size and depth; C19_descendant_tail_lists_distinct (no position twice, "
-         "all plain), C19_descendant_tail_lists_agrees (= tailOf when no node called name is a list). "
+         "all plain), C19_descendant_tail_lists_agrees (= tailOf when no node called name is a list), "
+         "C19_descendant_tail_lists_positions / _iff / _iff_list_root (found iff the node at a position ...name, any number of list "
+         "indexes, sub - getAt, both inclusions). "
          "NOT proved, checked on the implementation only: tails of three and more steps (evaluator "
          "descendant against a DFS oracle that fans out over lists + streams; soundness of every result is C19_keys_spell), "
          "object identity (`is`), and that the real code does not write "
